@@ -12,7 +12,8 @@ RULE = ("complete enumeration: every element length 0..521 as a one-element scri
         "(thorough 3-item) serialisation, every byte string of length <=5 over an 11-symbol alphabet as parser input, "
         "every varint value 0..70000 plus 2^k-1,2^k,2^k+1 for k<=70 and every strict prefix of every multi-byte varint "
         "used as a script length prefix; non-trivial = the implementation's bytes / parse result / refusal was compared "
-        "with the reference wire format; distinct by construction")
+        "with the reference wire format; distinct by construction"
+        "; every accepted parse is re-serialised and must give the standard minimal pushes (explicit non-minimal PUSHDATA1/2 framings of the boundary lengths)")
 
 LENS = [1, 2, 75, 76, 77, 255, 256, 257, 520]
 OPS = [0x00, 0x4f, 0x51, 0x76, 0xa9, 0xac, 0xff]
